@@ -218,6 +218,20 @@ Lemma mono_prim_equals a b : mono (prim_equals a b). Proof. unfold prim_equals. 
 Lemma mono_mod_num a b : mono (mod_num a b). Proof. unfold mod_num. mono_tac. Qed.
 #[export] Hint Resolve mono_object_has mono_object_fields mono_prim_equals mono_mod_num : mono.
 
+Lemma mono_all_m items d : mono (all_m items d).
+Proof. induction items as [|it r IH]; simpl; mono_tac; try apply IH. Qed.
+Lemma mono_any_m items d : mono (any_m items d).
+Proof. induction items as [|it r IH]; simpl; mono_tac; try apply IH. Qed.
+Lemma mono_sum_m items acc d : mono (sum_m items acc d).
+Proof. revert acc. induction items as [|it r IH]; intros acc; simpl; mono_tac; try apply IH. Qed.
+Lemma mono_flatten_m items acc d : mono (flatten_m items acc d).
+Proof. revert acc. induction items as [|it r IH]; intros acc; simpl; mono_tac; try apply IH. Qed.
+Lemma mono_contains_m x items d : mono (contains_m x items d).
+Proof. induction items as [|it r IH]; simpl; mono_tac; try apply IH. Qed.
+Lemma mono_count_m x items n d : mono (count_m x items n d).
+Proof. revert n. induction items as [|it r IH]; intros n; simpl; mono_tac; try apply IH. Qed.
+#[export] Hint Resolve mono_all_m mono_any_m mono_sum_m mono_flatten_m mono_contains_m mono_count_m : mono.
+
 Lemma mono_call_builtin bi args d : mono (call_builtin bi args d).
 Proof.
   unfold call_builtin.
